@@ -34,56 +34,52 @@ def r1a(a, tier):
 
 
 def r1b(a, tier):
-    return rule_left_call_table(a, 'C16.R1b')
+    return rule_left_call_table(a, 'C16.R1b', thorough=tier == 'thorough')
 
 
 def r2_guarded_marking(a, tier):
+    from ..rules.leftrec import B, Q, _MI
+    from ..modelinterp import Stub
+    from ..minieval import Unsupported
     rep = RuleReport(
         'C16.R2',
-        'in mark_left_recursion every rule is first reset (is_lrec False, is_memo from no_memo); is_lrec=True is stored only '
-        'under the guard `len(scc) > 1` (for the chosen leader) or under the self-loop guard `name in graph[name]`; is_memo=False '
-        'is stored for every member of a multi-rule SCC; the function returns the marked rules',
+        'mark_left_recursion, interpreted on named rule graphs with stale marks and @nomemo rules: every rule is first reset '
+        '(is_lrec False, is_memo = not no_memo) so that a re-initialised grammar keeps no stale mark; is_lrec=True only on a rule of '
+        'a cycle; is_memo=False for every rule of a cycle with more than one rule; a @nomemo rule stays unmemoized; the function '
+        'returns exactly the rules it marked',
         floor=4,
     )
     fn = a.p.func('tatsu.peg.leftrec.pegen.mark_left_recursion')
-    pm = a.resolver.parents(fn)
-
-    def guards(n):
-        out = []
-        cur = n
-        while id(cur) in pm:
-            par = pm[id(cur)]
-            if isinstance(par, ast.If):
-                in_body = any(cur is s or any(x is cur for x in ast.walk(s)) for s in par.body)
-                out.append(('' if in_body else 'not ') + norm(par.test))
-            cur = par
-        return out
-
-    stores = []
-    for n in walk_no_defs(fn.node):
-        if isinstance(n, ast.Assign) and isinstance(n.targets[0], ast.Attribute) and n.targets[0].attr in ('is_lrec', 'is_memo'):
-            stores.append((n.targets[0].attr, norm(n.value), guards(n), n))
-    resets = [s for s in stores if not s[2]]
-    marks = [s for s in stores if s[0] == 'is_lrec' and s[1] == 'True']
-    rep.add({'stores': [(s[0], s[1], s[2]) for s in stores]})
-    if not any(s[0] == 'is_lrec' and s[1] == 'False' for s in resets):
-        rep.fail(fn.qualname, 'no-reset', 'rules are not reset to is_lrec=False before marking: a re-initialised grammar keeps stale marks', fn.loc)
-    if not marks:
-        rep.fail(fn.qualname, 'no-mark', 'no store of is_lrec=True found', fn.loc)
-    for attr, val, g, n in marks:
-        ok = any('len(scc) > 1' in x for x in g) or any('in graph' in x and not x.startswith('not ') for x in g)
-        rep.add({'mark': norm(n), 'guards': g, 'guarded': ok})
+    b = B(a)
+    cases = [
+        # name, edges, nomemo rules, expected: marked subset-of, memo-false must include, memo-true must include
+        ('no cycle, stale marks', {('a', 'b'), ('b', 'c')}, set(), set(), set(), {'a', 'b', 'c'}),
+        ('self loop', {('a', 'a'), ('a', 'b')}, set(), {'a'}, set(), {'b', 'c'}),
+        ('two-rule cycle', {('a', 'b'), ('b', 'a')}, set(), {'a', 'b'}, {'a', 'b'}, {'c'}),
+        ('three-rule cycle', {('a', 'b'), ('b', 'c'), ('c', 'a')}, set(), {'a', 'b', 'c'}, {'a', 'b', 'c'}, set()),
+        ('@nomemo rule off the cycle', {('a', 'a')}, {'c'}, {'a'}, {'c'}, {'b'}),
+        ('cycle reached from outside', {('c', 'a'), ('a', 'b'), ('b', 'a')}, set(), {'a', 'b'}, {'a', 'b'}, {'c'}),
+    ]
+    names = ('a', 'b', 'c')
+    for what, edges, nomemo, may_mark, memo_off, memo_on in cases:
+        rules = []
+        for n in names:
+            opts = [b.seq(b.call(t), b.tok()) for t in names if (n, t) in edges] + [b.seq(b.tok())]
+            rules.append(Stub(Q['Rule'], name=n, exp=b.choice(*opts), no_memo=n in nomemo, is_lrec=True, is_memo=n in nomemo))
+        try:
+            res = _MI(a).call_fn(fn, [rules])
+        except Unsupported as e:
+            raise AnalysisError(f'cannot interpret mark_left_recursion ({what}): {e}') from e
+        marked = {r._attrs['name'] for r in rules if r._attrs['is_lrec']}
+        memo = {r._attrs['name'] for r in rules if r._attrs['is_memo']}
+        returned = {r._attrs['name'] for r in res}
+        ok = marked <= may_mark and bool(marked) == bool(may_mark) and not (memo & memo_off) and memo_on <= memo and returned == marked
+        rep.add({'graph': what, 'marked': sorted(marked), 'memoized': sorted(memo), 'returned': sorted(returned), 'ok': ok})
         if not ok:
-            rep.fail(fn.qualname, f'unguarded-mark:{norm(n)}', f'`{norm(n)}` is not under the multi-rule-SCC guard or the self-loop '
-                     f'guard (guards: {g}): rules on no cycle are treated as left recursive and lose memoization', f'{fn.module.relpath}:{n.lineno}')
-    memo_off = [s for s in stores if s[0] == 'is_memo' and s[1] == 'False']
-    if not any(any('len(scc) > 1' in x for x in g) for _, _, g, _ in memo_off):
-        rep.fail(fn.qualname, 'scc-memo', 'members of a multi-rule SCC are not set is_memo=False', fn.loc)
-    rets = [norm(r.value) for r in walk_no_defs(fn.node) if isinstance(r, ast.Return) and r.value is not None]
-    ok = any('is_lrec' in r for r in rets)
-    rep.add({'returns': rets, 'returns_marked_rules': ok})
-    if not ok:
-        rep.fail(fn.qualname, 'return-marked', 'mark_left_recursion does not return the rules it marked', fn.loc)
+            rep.fail(fn.qualname, f'marking:{what}', f'{what} (edges {sorted(edges)}, @nomemo {sorted(nomemo)}; every rule starts with stale '
+                     f'is_lrec=True): marked {sorted(marked)}, memoized {sorted(memo)}, returned {sorted(returned)}; required: marks only '
+                     f'in {sorted(may_mark)} (some iff non-empty), not memoized {sorted(memo_off)}, memoized {sorted(memo_on)}, returned = marked',
+                     fn.loc)
     return rep
 
 
